@@ -54,6 +54,29 @@ def _set_names(f: Func, setfuncs: Set[str]) -> Set[str]:
     return names
 
 
+_SET_METHODS = ("difference", "union", "intersection", "symmetric_difference", "copy")
+
+
+def _is_set_expr(e: ast.AST, sn: Set[str], setfuncs: Set[str]) -> bool:
+    """Does e evaluate to a Python set: a set-typed local, a display/comprehension, set(..), a set method that
+    returns a set (S.difference(x)), a set operator?"""
+    if isinstance(e, ast.Name):
+        return e.id in sn
+    if isinstance(e, (ast.Set, ast.SetComp)):
+        return True
+    if isinstance(e, ast.Call):
+        if norm(e.func) in ("set", "frozenset"):
+            return True
+        if isinstance(e.func, ast.Attribute) and e.func.attr in _SET_METHODS and _is_set_expr(e.func.value, sn, setfuncs):
+            return True
+        if (isinstance(e.func, ast.Attribute) and e.func.attr in setfuncs) or (isinstance(e.func, ast.Name) and e.func.id in setfuncs):
+            return True
+        return False
+    if isinstance(e, ast.BinOp) and isinstance(e.op, (ast.BitOr, ast.BitAnd, ast.Sub, ast.BitXor)):
+        return _is_set_expr(e.left, sn, setfuncs) or _is_set_expr(e.right, sn, setfuncs)
+    return False
+
+
 def rule_hash_order(ctx, rep, rid: str) -> None:
     rep.rule(rid, "sequences whose order comes from iterating a Python set (slot tables of locals / cell / free variables) are only used through order-insensitive operations: membership, name -> index lookup, length, copy, append, and iteration that builds a parallel table; a conversion through sorted() is not hash-ordered at all", floor=5)
     setfuncs = _set_functions(ctx)
@@ -87,6 +110,13 @@ def rule_hash_order(ctx, rep, rid: str) -> None:
                     ordered += 1
                     rep.ok(rid, f"{f.qual}:{norm(n.targets[0])} = sorted({v.args[0].id})", {"order": "sorted: independent of the hash seed"})
                     continue
+            # self.A.extend(<set expression>) / self.A += <set expression>: the table grows in hash order
+            if isinstance(n, ast.Call) and isinstance(n.func, ast.Attribute) and n.func.attr == "extend" and isinstance(n.func.value, ast.Attribute) and n.args:
+                a0 = n.args[0]
+                inner = a0.args[0] if isinstance(a0, ast.Call) and norm(a0.func) in ("list", "tuple") and a0.args else a0
+                if _is_set_expr(inner, sn, setfuncs) and not (isinstance(a0, ast.Call) and norm(a0.func) == "sorted"):
+                    sources += 1
+                    tainted[n.func.value.attr] = f"{f.qual}:{n.lineno}: {short(n, 60)}"
             # for x in sorted(S): deterministic
             if isinstance(n, ast.For) and isinstance(n.iter, ast.Call) and norm(n.iter.func) == "sorted" and n.iter.args and isinstance(n.iter.args[0], ast.Name) and n.iter.args[0].id in sn:
                 ordered += 1
